@@ -19,7 +19,7 @@ import (
 // the grammar's code block and is also known to the reference model.
 type Spec struct {
 	R   int  // action return: 0 node string, 1 nil, 2 []byte copy of text, 3 first label value, 4 id
-	E   int  // error: 0 none, 1 own always, 2 own when hash%3==0, 3 sentinel always, 4 sentinel when hash%2==0
+	E   int  // error: 0 none, 1 own always, 2 own when hash%3==0, 3 sentinel always, 4 sentinel when hash%2==0, 5 errors.Join(own, sentinel) always
 	P   int  // panic: 0 none, 1 error when hash%5==0, 2 string when hash%5==0, 3 int when hash%7==0, 4 error always
 	B   int  // predicate bool: 0 true, 1 false, 2 coin(labels, event index), 3 state n even, 4 coin(labels)
 	S   int  // state ops bitmask (state blocks): 1 inc n, 2 append id to s, 4 box push id, 8 set k<id%3>=off, 16 delete k<(id+1)%3>
@@ -76,7 +76,7 @@ func Hash(id, off int) uint32 {
 	return x
 }
 
-// ErrKind returns 0 (none), 1 (own) or 2 (sentinel).
+// ErrKind returns 0 (none), 1 (own), 2 (sentinel) or 3 (own and sentinel joined into one error).
 func (sp Spec) ErrKind(id, off int) int {
 	switch sp.E {
 	case 1:
@@ -91,6 +91,8 @@ func (sp Spec) ErrKind(id, off int) int {
 		if Hash(id, off)%2 == 0 {
 			return 2
 		}
+	case 5:
+		return 3
 	}
 	return 0
 }
@@ -419,6 +421,8 @@ func (sp Spec) fault(id, off int) error {
 		return &OwnErr{ID: id}
 	case 2:
 		return ErrSentinel
+	case 3:
+		return errors.Join(&OwnErr{ID: id}, ErrSentinel)
 	}
 	return nil
 }
